@@ -65,6 +65,33 @@ theorem after_good (v : Variant) (n : Nat) (s : Cpu) (z0 : ZX) (sched : Nat → 
    (program_keeps_good v n s _ (Good.start z0 sched h0.1 h0.2)).2,
    (machine_is_zx_run v n s z0 sched).2⟩
 
+/-- **The port history is the program's, not the schedule's.** The ghost history of a run does not
+depend on the sample-generation schedule (nor on anything else about the chip): it is the history
+recorded by the machine bus with the ghost alone (`HistZX`). -/
+theorem history_independent_of_schedule (v : Variant) (n : Nat) (s : Cpu) (z0 : ZX) (sched sched' : Nat → Nat) :
+    (after v n s z0 sched).hist = (after v n s z0 sched').hist ∧
+    (after v n s z0 sched).hist = (Z80.run v n (s, HistZX.mk z0 [])).2.hist := by
+  have h : ∀ sc, (after v n s z0 sc).hist = (Z80.run v n (s, HistZX.mk z0 [])).2.hist :=
+    fun sc => run_hist v n s (AyZX.start z0 sc)
+  exact ⟨(h sched).trans (h sched').symm, h sched⟩
+
+/-- **What the ghost records.** A port write appends one entry to the history exactly when
+`writeDecode` routes it to the AY select device (`select v`) or the AY data device (`write v`), with
+the byte as the CPU put it on the bus; no other bus operation touches the history. -/
+theorem history_records_ay_port_writes (p : BitVec 16) (d : BitVec 8) (x : AyZX) :
+    (Bus.writeIo p d x).hist =
+      (match writeDecode x.zx.cfg p with
+       | .aySelect => x.hist ++ [.select d]
+       | .ayData => x.hist ++ [.write d]
+       | _ => x.hist) ∧
+    (∀ a k, (Bus.waitMreq a k x).hist = x.hist) ∧ (∀ a k, (Bus.waitNoMreq a k x).hist = x.hist) ∧
+    (∀ k, (Bus.waitInternal k x).hist = x.hist) ∧ (∀ a, (Bus.readInternal a x).2.hist = x.hist) ∧
+    (∀ a b, (Bus.writeInternal a b x).hist = x.hist) ∧ (∀ q, (Bus.readIo q x).2.hist = x.hist) ∧
+    (Bus.readInterrupt x).2.hist = x.hist ∧ (Bus.reti x).hist = x.hist ∧
+    (∀ on, (Bus.halt on x).hist = x.hist) ∧ (∀ a, (Bus.pcCallback a x).hist = x.hist) :=
+  ⟨AyZX.writeIo_hist p d x, fun _ _ => rfl, fun _ _ => rfl, fun _ => rfl, fun _ => rfl, fun _ _ => rfl,
+   fun _ => rfl, rfl, rfl, fun _ => rfl, fun _ => rfl⟩
+
 /-! ### chip = fold of the port history -/
 
 /-- **The chip is the fold of what the program did on the AY ports.** After any program the chip's
@@ -191,19 +218,25 @@ theorem reg_wrap_mod16_every_program (v : Variant) (n : Nat) (s : Cpu) (z0 : ZX)
     · rw [(ez a).1, (ez b).1, and15_eq_mod, and15_eq_mod, hab]
     · rw [(ez a).1, and15_eq_mod]
 
-/-- … and for whole histories: two runs (any programs, machines, schedules without samples) whose
-port histories agree up to the upper four bits of the register numbers leave their chips — register
-file, latch and generator — in the same state. A program that selects register `r + 16·j` drives
-the sound exactly as one that selects `r`. -/
-theorem reg_alias_same_chip (v v' : Variant) (n n' : Nat) (s s' : Cpu) (z0 z0' : ZX)
+/-- … and for whole histories: two runs (any programs, machines, CPU states; the same
+sample-generation schedule) whose port histories agree up to the upper four bits of the register
+numbers leave their chips — register file, latch and generator — in the same state. A program that
+selects register `r + 16·j` drives the sound exactly as one that selects `r`. -/
+theorem reg_alias_same_chip (v v' : Variant) (n n' : Nat) (s s' : Cpu) (z0 z0' : ZX) (sched : Nat → Nat)
     (h0 : AyPowerOn z0) (h0' : AyPowerOn z0') :
-    let x := after v n s z0 (fun _ => 0)
-    let x' := after v' n' s' z0' (fun _ => 0)
+    let x := after v n s z0 sched
+    let x' := after v' n' s' z0' sched
     congr16 x.hist x'.hist → x.chip = x'.chip := by
   intro x x' h
-  show (after v n s z0 (fun _ => 0)).chip = (after v' n' s' z0' (fun _ => 0)).chip
-  rw [chip_is_fold_when_silent v n s z0 h0, chip_is_fold_when_silent v' n' s' z0' h0']
-  exact Chip.run_congr16 _ _ _ h
+  obtain ⟨a1, a2, a3⟩ := chip_is_fold_of_port_history v n s z0 sched h0
+  obtain ⟨b1, b2, b3⟩ := chip_is_fold_of_port_history v' n' s' z0' sched h0'
+  have e := Chip.run_congr16 {} _ _ h
+  refine Chip.ext' _ _ ?_ ?_ ?_
+  · rw [a1, b1, e]
+  · rw [a2, b2, e]
+  · rw [a3, b3]
+    show Ay.run _ (interleave sched 0 (portWrites 0 _)) = Ay.run _ (interleave sched 0 (portWrites 0 _))
+    rw [portWrites_congr16 0 _ _ h]
 
 /-! ### every register write reaches the generator -/
 
@@ -382,5 +415,60 @@ theorem mixer_after_program (v : Variant) (n : Nat) (s : Cpu) (z0 : ZX) (sched :
   have e10 : g.regs 10 = z.ayRegs 10 := hr 10 (by omega)
   rw [e7, e8, e9, e10] at h
   exact ⟨h, hd⟩
+
+/-! ### Non-vacuity: a program that programs the chip -/
+
+/-- memory image: bytes stored from `a` on through the CPU's own `write_internal` -/
+def load (z : ZX) (a : BitVec 16) : List (BitVec 8) → ZX
+  | [] => z
+  | b :: t => load (Bus.writeInternal a b z) (a + 1) t
+
+/-- `LD BC,0xFFFD ; LD A,sel ; OUT (C),A ; LD B,0xBF ; LD A,0x0F ; OUT (C),A` — select register `sel`
+through 0xFFFD, write 0x0F to it through 0xBFFD (six instructions) -/
+def prog (sel : BitVec 8) : List (BitVec 8) :=
+  [0x01, 0xFD, 0xFF, 0x3E, sel, 0xED, 0x79, 0x06, 0xBF, 0x3E, 0x0F, 0xED, 0x79]
+
+/-- the power-on machine (Kempston mouse attached) with the program at 0x8000 -/
+def demo (k : Kind) (sel : BitVec 8) : ZX := load (ZX.new k false true) 0x8000 (prog sel)
+
+/-- the hypotheses of the theorems are met: storing a program leaves the AY at power-on -/
+example (k : Kind) (sel : BitVec 8) : AyPowerOn (demo k sel) := ⟨rfl, rfl⟩
+
+/-- the bus at work (kernel evaluation of six `emulate` calls on the 48K): the ghost history is the two
+port operations of the program, the chip has register 8 selected and holds 0x0F in it, the machine's
+own AY fields say the same, the write has reached the generator (volume of channel A = 15), and an
+`IN` from 0xFFFD reads 0x0F back -/
+example : let x := after .hw 6 { pc := 0x8000 } (demo .k48 8) (fun _ => 0)
+    x.hist = [.select 8, .write 0x0F] ∧ x.chip.currentReg = 8 ∧ x.chip.regs 8 = 0x0F ∧
+    x.zx.ayReg = 8 ∧ x.zx.ayRegs 8 = 0x0F ∧ x.chip.ay.regs 8 = 0x0F ∧ x.chip.ay.ch0.volume = 15 ∧
+    (Bus.readIo 0xFFFD x.zx).1 = 0x0F ∧ x.dataWrites = 1 ∧
+    portWrites 0 x.hist = [.write 8 0x0F] := by
+  decide +kernel
+
+/-- the same on the 128K with an aliased register number (`sel = 0x18 ≡ 8 mod 16`): the history keeps
+the byte as written, the chip selects register 8 and the generator's channel A gets its volume -/
+example : let x := after .hw 6 { pc := 0x8000 } (demo .k128 0x18) (fun _ => 0)
+    x.hist = [.select 0x18, .write 0x0F] ∧ x.chip.currentReg = 8 ∧ x.zx.ayReg = 8 ∧
+    x.chip.ay.ch0.volume = 15 ∧ portWrites 0 x.hist = [.write 8 0x0F] := by
+  decide +kernel
+
+/-- with sample generation in between (five generator ticks before the data write): same history, same
+registers; the tone flip-flop of channel A (power-on period 1) has toggled five times -/
+example : let x := after .hw 6 { pc := 0x8000 } (demo .k48 8) (fun _ => 5)
+    x.hist = [.select 8, .write 0x0F] ∧ x.chip.ay.ch0.volume = 15 ∧ x.chip.ay.ch0.tone = true ∧
+    genOps (fun _ => 5) x.hist = [.tick, .tick, .tick, .tick, .tick, .write 8 0x0F] := by
+  decide +kernel
+
+/-- the theorems instantiated on the program: whatever the schedule, an `IN` from 0xFFFD after the six
+instructions returns what the register-file spec computes from the program's history -/
+example (k : Kind) (sel : BitVec 8) (sched : Nat → Nat) :
+    let x := after .hw 6 { pc := 0x8000 } (demo k sel) sched
+    let z := (Z80.run .hw 6 ({ pc := 0x8000 }, demo k sel)).2
+    (Bus.readIo 0xFFFD z).1 = (RegFile.run {} x.hist).last (RegFile.run {} x.hist).selected :=
+  ((readback_every_program .hw 6 { pc := 0x8000 } (demo k sel) sched ⟨rfl, rfl⟩ 0xFFFD) (ay_ports _).1).1
+
+/-- histories that differ in the upper bits of a register number are `congr16` -/
+example : congr16 [.select 0x18, .write 0x0F] [.select 0x08, .write 0x0F] :=
+  ⟨(by decide : (0x18 : BitVec 8).toNat % 16 = (0x08 : BitVec 8).toNat % 16), rfl, trivial⟩
 
 end ZxVerif.C18Sys
